@@ -287,7 +287,11 @@ def parse_keyword(p: Parser) -> KeywordAstNode:
     elif keyword.value == "include":
         filename = parse_directive_with_quoted_string(p)
 
-        with open(filename, encoding="utf-8") as fd:
+        try:
+            fd = open(filename, encoding="utf-8")
+        except OSError as e:
+            raise ParserSyntaxError(f"Unable to include {filename}: {e}", keyword) from e
+        with fd:
             source = fd.read()
 
             scanner = Scanner(cast(ScannerStateFunc, lex_initial))
@@ -300,9 +304,9 @@ def parse_keyword(p: Parser) -> KeywordAstNode:
     elif keyword.value == "include_ips":
         return parse_include_ips(p)
     elif keyword.value == "incbin":
-        return IncludeBinaryAstNode(parse_directive_with_quoted_string(p), p.current())
+        return IncludeBinaryAstNode(parse_directive_with_quoted_string(p), keyword)
     elif keyword.value == "table":
-        return TableAstNode(parse_directive_with_quoted_string(p), p.current())
+        return TableAstNode(parse_directive_with_quoted_string(p), keyword)
     elif keyword.value == "macro":
         return parse_macro(p)
     elif keyword.value == "map":
